@@ -59,6 +59,25 @@ def gen_adapter_spec(rng, name, allow_linked=True, seqs=ADAPTER_SEQS):
     return flag, f"{name}={body}{params}"
 
 
+def dup_adapter_spec(rng, name, prev):
+    """an adapter with the sequence and type of `prev` = (flag, spec) under another name, usually with other search parameters
+    (two adapters may differ in nothing but their name or their parameters: per-adapter state must not be keyed on the sequence)"""
+    flag, spec = prev
+    body = spec.split("=", 1)[1]
+    if "..." in body:
+        return None
+    core = body.split(";")[0]
+    params = ";rightmost" if ";rightmost" in body else ""
+    x = rng.random()
+    if x < 0.7:
+        params += ";e=" + rng.choice(["0", "0.1", "0.2", "0.34", "1", "2"])
+    if x > 0.5:
+        params += ";o=" + str(rng.randint(1, 6))
+    if rng.random() < 0.2:
+        params += ";noindels"
+    return flag, f"{name}={core}{params}"
+
+
 def embed(rng, s, adapters_plain):
     if adapters_plain and rng.random() < 0.7:
         a = rng.choice(adapters_plain)
@@ -117,15 +136,16 @@ def gen_case(rng, focus=()):
     n2 = rng.randint(0, 2) if paired else 0
     pair_adapters = paired and p("pair_adapters", 0.1)
     if pair_adapters:
-        n1 = n2 = rng.randint(1, 2)
+        n1 = n2 = rng.randint(1, 4)
     plain1, plain2 = [], []
     allow_linked = not pair_adapters and "nolinked" not in focus
-    for i in range(n1):
-        fl, spec = gen_adapter_spec(rng, f"a{i}", allow_linked)
-        argv += [fl, spec]
-    for i in range(n2):
-        fl, spec = gen_adapter_spec(rng, f"b{i}", allow_linked)
-        argv += [fl.upper(), spec]
+    for n, letter, up in ((n1, "a", False), (n2, "b", True)):
+        made = []
+        for i in range(n):
+            d = dup_adapter_spec(rng, f"{letter}{i}", rng.choice(made)) if made and rng.random() < 0.3 else None
+            fl, spec = d or gen_adapter_spec(rng, f"{letter}{i}", allow_linked)
+            made.append((fl, spec))
+            argv += [fl.upper() if up else fl, spec]
     if pair_adapters:
         argv.append("--pair-adapters")
     if rng.random() < 0.15:
@@ -322,7 +342,10 @@ def run_real(case, want_json=False):
     patch_prefilter()
     inputs, in_args = inputs_of(case)
     argv = list(case["argv"]) + in_args
-    res = clirun.run_cli(argv, inputs, want_json=want_json)
+    # a case may ask for real worker processes: case["cores"] = N (and case["buffer_size"] to split the input into several chunks)
+    if case.get("buffer_size"):
+        argv = ["--buffer-size", str(case["buffer_size"])] + argv
+    res = clirun.run_cli(argv, inputs, want_json=want_json, cores=case.get("cores"))
     return res, canon_real(res, case)
 
 
